@@ -343,7 +343,10 @@ Qed.
 
 Lemma evalM_single n (S : 'M[R]_n) t : evalM n [::] S t = mexp (Q2R t *: S).
 Proof.
-rewrite -[LHS]/(1%:M *m stepM S (t - 0)%QQ) mul1mx /stepM; congr (mexp (_ *: _)).
+have -> : evalM n [::] S t = 1%:M *m stepM S (t - 0)%QQ by [].
+rewrite mul1mx.
+rewrite /stepM.
+have -> // : Q2R (t - 0)%QQ = Q2R t.
 by apply: Qeq_eqR; rewrite /Qminus Qplus_0_r.
 Qed.
 
